@@ -90,6 +90,27 @@ enabled responders with that function that accept the message; no operation on a
 sharer may raise; flags / listings follow the model; the order of the handler
 labels is judged when all responders of a message sit on one path of one
 dispatcher.
+
+Round 11 (vf/c18_elem.py), what ONE ELEMENT of a packet may do to the others:
+(1) shards 'tags*': datagrams from an independent encoder with every type tag the
+receiver documents (sc3/base/_osclib.py: i f d s b t m r T F N and arrays) - each
+alone, first / last / between other arguments, twice, inside arrays and nested
+arrays, mixed - as a plain message and in every element position of bundles of 1-6
+elements and nested bundles (depth <= 3), 15 % over loop-back UDP; every message of
+the packet must reach the receive functions and the exact / pattern responders on
+its address exactly once, in order, with exactly the decoded arguments, its time,
+sender and port; the same shapes with tags the library does not document (h c S I,
+and non-OSC tags) must raise nothing, leave the receiver alive and never alter a
+message (whether they / their siblings are delivered: observed_*).  The fuzz
+monitor's 'documented' set (c18_gen.SUPPORTED_TAGS) now includes m r N as well.
+(2) shards 'bfault*': packets of 1-6 messages (flat / nested bundles, mixed
+addresses, patterns; controls: plain messages, one-element bundles, no fault) while
+responder functions and receive functions registered with main.add_osc_recv_func
+RAISE on chosen elements (first, last, all but the last, all, random subsets; 1-2
+raisers per element): every element nobody raises on invokes every receive function
+and every accepting responder exactly once (same-path responders in creation
+order), elements in order, nothing twice, only the injected exceptions are logged,
+the receiver stays alive.
 """
 
 from vf.common import iter_cases, case_rng, h64, split
@@ -138,6 +159,17 @@ RULE = ("hist: seeded histories (5-55 ops) over <=10 responders on 4-9 paths tha
         "function; invocations counted per handler; non-trivial = a message that must "
         "invoke one function more than once, a state-changing op and an enabled responder "
         "that must stay silent. "
+        "tags: subject tag by rotation over i f d s b t m r T F N [] (12 of 17 cases) and h c S I / "
+        "a non-OSC tag (5 of 17), shape alone / first / last / between / twice / in-array / "
+        "nested-array / mixed, container message (30 %) or bundle of 1-6 elements with the "
+        "subject at a uniform position, 35 % per level inside a nested bundle, other elements "
+        "messages with documented tags or nested bundles; non-trivial = the subject has an "
+        "argument or the packet several messages. "
+        "bfault: per case 3-8 responders (exact / matching) on 2-4 paths and 1-3 receive "
+        "functions, 1-3 packets of 1-6 messages carrying their serial, 88 % with raising "
+        "elements (first / last / all but last / all / random subset), raiser = 1-2 accepting "
+        "responders (60 %) or a receive function, 20 % over UDP; non-trivial = an element "
+        "behind a raising one was verified complete. "
         "distinct = hash of history / pattern group / datagram bytes")
 ASSUMPTIONS = [
     "vf/model_dispatch.py:osc_match is the meaning of 'OSC 1.0 pattern' (per-part "
@@ -149,9 +181,20 @@ ASSUMPTIONS = [
     "'truncated bundle elements') - make an invocation a violation, other "
     "deviations tolerated by a lenient reader (padding, alignment, missing type tag "
     "string or comma, trailing bytes, empty/unknown elements, short final float) are "
-    "counted (lenient_dispatch/*); valid messages with optional OSC 1.0 type tags "
-    "(N I h S ...) may be delivered exactly or discarded, never altered; valid "
-    "nesting deeper than 300 bundles may be dropped as a whole",
+    "counted (lenient_dispatch/*); the type tags the library documents (comments of "
+    "OscMessage._parse_datagram and the ARG_TYPE_* table of OscMessageBuilder in "
+    "sc3/base/_osclib.py: i f d s b t m r T F N [ ]) must be delivered exactly - d as "
+    "float, t and r as int, m as a tuple of four ints, N as None, arrays as lists; valid "
+    "messages with other optional OSC 1.0 type tags (I h S c) may be delivered exactly or "
+    "discarded, never altered, and what happens to their siblings in a bundle is counted "
+    "only; valid nesting deeper than 300 bundles may be dropped as a whole",
+    "order of the messages of one packet: packet order, or stable order of the time tags "
+    "of the enclosing bundles (the library sorts a packet's messages by time tag; OSC 1.0 "
+    "gives a later time tag the later effect) - either is accepted, nothing else",
+    "bundle with raising callbacks: the message somebody raises on is judged 'at most once "
+    "per function, somebody raised' only (the library abandons that message's dispatch and "
+    "its receive functions are an unordered set); every other message of the packet is a "
+    "unit of its own (OscInterface._msg_dispatch: one clock task per message)",
     "registry mechanics are exercised on fresh subclasses (own tables, no library "
     "actions) AND on the library's real CmdPeriod/StartUp/ShutDown and ServerBoot/"
     "ServerTree/ServerQuit holding actions at the same time (library-owned actions "
@@ -242,7 +285,7 @@ MIN_COUNTERS = {
               'injected_callback_faults': 300, 'registry_removed_before_its_turn': 200,
               'registry_real_runs_with_actions_elsewhere': 2000,
               'registry_injected_faults': 1000, 'cmdperiod_residue_checks': 500,
-              'fuzz_valid_optional_type_tags': 200, 'midi_messages': 5000,
+              'fuzz_valid_optional_type_tags': 100, 'midi_messages': 5000,
               'midi_one_shots_fired': 300, 'tcp_frames': 300,
               'pattern_pairs': 20000, 'pattern_pairs_expected_match': 2000,
               'fuzz_datagrams': 5000, 'fuzz_malformed': 2000,
@@ -286,7 +329,49 @@ MIN_COUNTERS = {
               'shared_ops_on_a_sharer/one_shot': 400, 'shared_ops_on_a_sharer/set_func': 250,
               'shared_ops_on_a_sharer/cmd_period': 70, 'shared_one_shots_fired': 250,
               'shared_reloads/new-then-free': 250, 'shared_reloads/free-then-new': 120,
-              'shared_order_sequences_checked': 250, 'shared_epilogues': 400},
+              'shared_order_sequences_checked': 250, 'shared_epilogues': 400,
+              # round 11: every documented type tag in every position; bundles with raising
+              # callbacks (vf/c18_elem.py)
+              'tags_datagrams/documented': 2000, 'tags_messages_checked': 10000,
+              'tags_responder_invocations_checked': 20000, 'tags_bundle_position/first': 450,
+              'tags_bundle_position/last': 450, 'tags_bundle_position/middle': 700,
+              'tags_bundle_position/only': 300, 'tags_bundle_size/6': 300,
+              'tags_subject_in_nested_bundle': 700, 'tags_undocumented_checked': 800,
+              'tags_datagrams/foreign': 150, 'tags_udp_datagrams': 400,
+              'bfault_bundles_with_raising_element': 1500,
+              'bfault_clean_elements_checked': 4000, 'bfault_raising_elements_checked': 3000,
+              'bfault_elements_after_a_raising_element': 2000,
+              'bfault_elements_after_a_raising_element/recv-func': 1000,
+              'bfault_elements_after_a_raising_element/responder': 800,
+              'bfault_elements_before_a_raising_element': 1500,
+              'bfault_elements_between_raising_elements': 300,
+              'bfault_nested_elements_after_a_raising_element': 400,
+              'bfault_packet_order_checked': 1700, 'bfault_order_pairs_checked': 3500,
+              'bfault_messages_in_packet/6': 300, 'bfault_udp_datagrams': 450,
+              'tags_delivered_exactly/i': 150, 'tags_delivered_exactly_in_bundle/i': 100,
+              'tags_delivered_exactly_in_array/i': 30, 'tags_delivered_exactly/f': 150,
+              'tags_delivered_exactly_in_bundle/f': 100,
+              'tags_delivered_exactly_in_array/f': 30, 'tags_delivered_exactly/d': 150,
+              'tags_delivered_exactly_in_bundle/d': 100,
+              'tags_delivered_exactly_in_array/d': 30, 'tags_delivered_exactly/s': 150,
+              'tags_delivered_exactly_in_bundle/s': 100,
+              'tags_delivered_exactly_in_array/s': 30, 'tags_delivered_exactly/b': 150,
+              'tags_delivered_exactly_in_bundle/b': 100,
+              'tags_delivered_exactly_in_array/b': 30, 'tags_delivered_exactly/t': 150,
+              'tags_delivered_exactly_in_bundle/t': 100,
+              'tags_delivered_exactly_in_array/t': 30, 'tags_delivered_exactly/m': 150,
+              'tags_delivered_exactly_in_bundle/m': 100,
+              'tags_delivered_exactly_in_array/m': 30, 'tags_delivered_exactly/r': 150,
+              'tags_delivered_exactly_in_bundle/r': 100,
+              'tags_delivered_exactly_in_array/r': 30, 'tags_delivered_exactly/T': 150,
+              'tags_delivered_exactly_in_bundle/T': 100,
+              'tags_delivered_exactly_in_array/T': 30, 'tags_delivered_exactly/F': 150,
+              'tags_delivered_exactly_in_bundle/F': 100,
+              'tags_delivered_exactly_in_array/F': 30, 'tags_delivered_exactly/N': 150,
+              'tags_delivered_exactly_in_bundle/N': 100,
+              'tags_delivered_exactly_in_array/N': 30, 'tags_delivered_exactly/[]': 150,
+              'tags_delivered_exactly_in_bundle/[]': 100,
+              'tags_delivered_exactly_in_array/[]': 30},
     'thorough': {'hist_messages': 100000, 'invocations_checked': 60000,
                  'order_pairs_checked': 5000, 'one_shots_fired': 3000,
                  'in_callback_ops_total': 3000,
@@ -294,7 +379,7 @@ MIN_COUNTERS = {
                  'registry_removed_before_its_turn': 5000,
                  'registry_real_runs_with_actions_elsewhere': 50000,
                  'registry_injected_faults': 50000, 'cmdperiod_residue_checks': 30000,
-                 'fuzz_valid_optional_type_tags': 10000, 'midi_messages': 200000,
+                 'fuzz_valid_optional_type_tags': 5000, 'midi_messages': 200000,
                  'midi_one_shots_fired': 10000, 'tcp_frames': 10000,
                  'messages_shorter_than_template': 1500,
                  'template_predicate_calls_checked': 80000,
@@ -342,7 +427,49 @@ MIN_COUNTERS = {
                  'shared_ops_on_a_sharer/one_shot': 9000, 'shared_ops_on_a_sharer/set_func': 5000,
                  'shared_ops_on_a_sharer/cmd_period': 1500, 'shared_one_shots_fired': 5000,
                  'shared_reloads/new-then-free': 5000, 'shared_reloads/free-then-new': 2500,
-                 'shared_order_sequences_checked': 5000, 'shared_epilogues': 9000},
+                 'shared_order_sequences_checked': 5000, 'shared_epilogues': 9000,
+                 # round 11 (vf/c18_elem.py)
+                 'tags_datagrams/documented': 24000, 'tags_messages_checked': 120000,
+                 'tags_responder_invocations_checked': 240000,
+                 'tags_bundle_position/first': 5400, 'tags_bundle_position/last': 5400,
+                 'tags_bundle_position/middle': 8400, 'tags_bundle_position/only': 3600,
+                 'tags_bundle_size/6': 3600, 'tags_subject_in_nested_bundle': 8400,
+                 'tags_undocumented_checked': 9600, 'tags_datagrams/foreign': 1800,
+                 'tags_udp_datagrams': 4800, 'bfault_bundles_with_raising_element': 18000,
+                 'bfault_clean_elements_checked': 48000,
+                 'bfault_raising_elements_checked': 36000,
+                 'bfault_elements_after_a_raising_element': 24000,
+                 'bfault_elements_after_a_raising_element/recv-func': 12000,
+                 'bfault_elements_after_a_raising_element/responder': 9600,
+                 'bfault_elements_before_a_raising_element': 18000,
+                 'bfault_elements_between_raising_elements': 3600,
+                 'bfault_nested_elements_after_a_raising_element': 4800,
+                 'bfault_packet_order_checked': 20400, 'bfault_order_pairs_checked': 42000,
+                 'bfault_messages_in_packet/6': 3600, 'bfault_udp_datagrams': 5400,
+                 'tags_delivered_exactly/i': 1800, 'tags_delivered_exactly_in_bundle/i': 1200,
+                 'tags_delivered_exactly_in_array/i': 360, 'tags_delivered_exactly/f': 1800,
+                 'tags_delivered_exactly_in_bundle/f': 1200,
+                 'tags_delivered_exactly_in_array/f': 360, 'tags_delivered_exactly/d': 1800,
+                 'tags_delivered_exactly_in_bundle/d': 1200,
+                 'tags_delivered_exactly_in_array/d': 360, 'tags_delivered_exactly/s': 1800,
+                 'tags_delivered_exactly_in_bundle/s': 1200,
+                 'tags_delivered_exactly_in_array/s': 360, 'tags_delivered_exactly/b': 1800,
+                 'tags_delivered_exactly_in_bundle/b': 1200,
+                 'tags_delivered_exactly_in_array/b': 360, 'tags_delivered_exactly/t': 1800,
+                 'tags_delivered_exactly_in_bundle/t': 1200,
+                 'tags_delivered_exactly_in_array/t': 360, 'tags_delivered_exactly/m': 1800,
+                 'tags_delivered_exactly_in_bundle/m': 1200,
+                 'tags_delivered_exactly_in_array/m': 360, 'tags_delivered_exactly/r': 1800,
+                 'tags_delivered_exactly_in_bundle/r': 1200,
+                 'tags_delivered_exactly_in_array/r': 360, 'tags_delivered_exactly/T': 1800,
+                 'tags_delivered_exactly_in_bundle/T': 1200,
+                 'tags_delivered_exactly_in_array/T': 360, 'tags_delivered_exactly/F': 1800,
+                 'tags_delivered_exactly_in_bundle/F': 1200,
+                 'tags_delivered_exactly_in_array/F': 360, 'tags_delivered_exactly/N': 1800,
+                 'tags_delivered_exactly_in_bundle/N': 1200,
+                 'tags_delivered_exactly_in_array/N': 360, 'tags_delivered_exactly/[]': 1800,
+                 'tags_delivered_exactly_in_bundle/[]': 1200,
+                 'tags_delivered_exactly_in_array/[]': 360},
 }
 
 
@@ -369,6 +496,12 @@ def plan(tier, seed):
     add('reg', 'nrt', 6000 if q else 200000, 1 if q else 2)
     # round 10: responders that share one function object (vf/c18_shared.py)
     add('shared', 'rt', 1600 if q else 45000, 1 if q else 2)
+    # round 11: one element of a packet and the others (vf/c18_elem.py): every
+    # documented type tag in every position; bundles with raising callbacks
+    for kind, total in (('tags', 12000 if q else 400000), ('bfault', 5000 if q else 150000)):
+        for p, (f, n) in enumerate(split(total, 1 if q else 2)):
+            shards.append({'name': f'{kind}{p}', 'mode': 'rt', 'kind': kind, 'first_case': f,
+                           'n': n, 'secs': 24 if q else 420, 'hard_timeout': secs + 150})
     # the library started BEHIND ports other programs hold (vf/c18_port.py starts
     # it itself: worker mode 'none'), one process per number of held ports
     for k, held in enumerate((1, 3) if q else (1, 3, 6)):
@@ -407,5 +540,8 @@ def run_shard(spec, acc):
     elif kind == 'port':
         from vf import c18_port
         c18_port.run(spec, acc)
+    elif kind in ('tags', 'bfault'):
+        from vf import c18_elem
+        c18_elem.run(spec, acc)
     else:
         raise ValueError(kind)
